@@ -132,9 +132,19 @@ func (r *recorder) install() {
 			r.emit("Hook", "site", site, "h", r.handle(obj), "a", a, "b", b, "g", vsup.Goid())
 		}
 	})
+	// the three engine-level gates are logged too (EngineTrace.tla); the queue / poller gates are not
+	vhook.SetGate(func(site string, obj any, a int) {
+		switch site {
+		case "acc.accepted":
+			c := obj.(*conn)
+			r.emit("Gate", "site", site, "h", r.handle(c), "fd", a, "idx", c.loop.idx, "g", vsup.Goid())
+		case "eng.triggered", "loop.polling-returned":
+			r.emit("Gate", "site", site, "h", 0, "idx", a, "g", vsup.Goid())
+		}
+	})
 }
 
-func (r *recorder) uninstall() { vhook.SetSink(nil) }
+func (r *recorder) uninstall() { vhook.SetSink(nil); vhook.SetGate(nil) }
 
 func (r *recorder) close() error {
 	r.mu.Lock()
